@@ -335,7 +335,8 @@ func (s *storage) GetWriter(key Key, revalidate bool, closeNotifier *chan KeyInf
 				accessTime:    accessTime(time.Now().Unix()),
 				sizeKilobytes: uint32(size / 1024),
 			}
-			s.itemsChan <- &itemWithOp{op: opAdd, name: itemName(name), accessedItem: &ai}
+			sai := storableAccessedItem{time.Now().Unix(), uint32(size / 1024)}
+			s.itemsChan <- &itemWithOp{op: opAdd, name: itemName(name), accessedItem: &ai, storableAccessedItem: &sai}
 		}, now: func() time.Time {
 			return s.now()
 		}, closeNotifier: closeNotifier,
@@ -570,6 +571,9 @@ func (s *storage) runSizeLimiter() {
 			if io.accessedItem != nil {
 				s.withAccessTime[io.name] = *io.accessedItem
 				s.sizeBytes += int64(io.accessedItem.sizeKilobytes * 1024)
+			}
+			if io.storableAccessedItem != nil {
+				s.storableAccessedItems[io.name] = *io.storableAccessedItem
 			}
 		case opAccessTime:
 			if io.accessedItem != nil {
